@@ -138,7 +138,29 @@ def _writer_sets(repo):
     return out
 
 
+def _future_handout(repo):
+    """C02 F6 hand-out obligation: a plain concurrent.futures.Future is created only where it is resolved
+    before it is returned; every possibly-pending future handed out is an instance of a library class whose
+    cancel() contract ends in CANCELLED_AND_NOTIFIED (proved by the _Future.cancel units)."""
+    import ast
+    allowed = {"futures.base.f_return", "futures.base.f_return_error", "futures.base.f_return_cancelled",
+               "sync.SyncExecutor.submit", "futures.sequence.f_traverse"}
+    sites = []
+    for qn, f in sorted(repo.funcs.items()):
+        for (nm, held, line, node) in S.facts(repo, f).calls:
+            if nm == "Future" and isinstance(node.func, ast.Name) and not node.args:
+                sites.append(S.short(qn))
+    bad = sorted(set(sites) - allowed)
+    return [S.ob("every possibly-pending future handed out is of a class whose cancel() releases waiters "
+                 "(plain Future() only where it is resolved before being returned)", "PC", not bad, ["C02", "C03"],
+                 {"plain Future() created in": bad})]
+
+
+REPLAYS = [("C02", "every possibly-pending future handed out", "replay/c02_combinator_cancel_waiters.py"),
+           ("C03", "every possibly-pending future handed out", "replay/c02_combinator_cancel_waiters.py")]
+
 STATIC = [
+    dict(name="future-handout", props=["C02", "C03"], run=_future_handout),
     dict(name="regions", props=sorted({p for r in REGIONS for p in r["props"]}), run=_regions),
     dict(name="future-state-transitions", props=["C02", "C13", "C05", "C06", "C18"], run=_stdlib_transitions_under_lock),
     dict(name="wake-orders", props=["C03", "C05", "C07", "C08", "C09", "C11"], run=_wake_orders),
